@@ -46,6 +46,7 @@ import (
 	coinswapkeeper "mods.irisnet.org/modules/coinswap/keeper"
 	farmkeeper "mods.irisnet.org/modules/farm/keeper"
 	htlckeeper "mods.irisnet.org/modules/htlc/keeper"
+	htlctypes "mods.irisnet.org/modules/htlc/types"
 	mtkeeper "mods.irisnet.org/modules/mt/keeper"
 	nftkeeper "mods.irisnet.org/modules/nft/keeper"
 	oraclekeeper "mods.irisnet.org/modules/oracle/keeper"
@@ -430,6 +431,15 @@ func (r *Rig) buildGenesis() map[string]json.RawMessage {
 		mg.Params.InflationMin = sdkmath.LegacyZeroDec()
 		mg.Params.InflationRateChange = sdkmath.LegacyZeroDec()
 		gs[minttypes.ModuleName] = cdc.MustMarshalJSON(mg)
+	}
+	// the htlc module's default genesis stamps "previous block time" with the host clock (it is what a freshly generated
+	// genesis file would carry); a fixed instant keeps two runs of one case identical from the first app hash on
+	if raw, ok := gs[htlctypes.ModuleName]; ok {
+		var hg htlctypes.GenesisState
+		if err := cdc.UnmarshalJSON(raw, &hg); err == nil {
+			hg.PreviousBlockTime = time.Unix(0, 0).UTC()
+			gs[htlctypes.ModuleName] = cdc.MustMarshalJSON(&hg)
+		}
 	}
 	if r.Opts.GenesisMutator != nil {
 		r.Opts.GenesisMutator(cdc, gs)
